@@ -174,16 +174,16 @@ func c19Confs() []c19Conf {
 
 // methods the generic setter sequences leave out, and why
 var c19SkipClientSetters = map[string]string{
-	"Clone":               "not a setter",
-	"SetCertFromFile":     "reads files",
+	"Clone":                "not a setter",
+	"SetCertFromFile":      "reads files",
 	"SetRootCertsFromFile": "reads files",
-	"EnableDumpAllToFile": "creates files",
-	"DevMode":             "dumps to stdout",
-	"EnableDumpAll":       "dumps to stdout unless an output was set (used through EnableDumpAllTo)",
-	"EnableDumpAllAsync":  "dumps to stdout unless an output was set",
-	"EnableDebugLog":      "logs to stdout",
-	"EnableTraceAll":      "",
-	"SetUnixSocket":       "",
+	"EnableDumpAllToFile":  "creates files",
+	"DevMode":              "dumps to stdout",
+	"EnableDumpAll":        "dumps to stdout unless an output was set (used through EnableDumpAllTo)",
+	"EnableDumpAllAsync":   "dumps to stdout unless an output was set",
+	"EnableDebugLog":       "logs to stdout",
+	"EnableTraceAll":       "",
+	"SetUnixSocket":        "",
 }
 
 // c19RandomSetters applies n randomly drawn settings methods (client and transport level, arguments by
@@ -251,6 +251,8 @@ func c19CtxFlags(c *Client, fo reflect.Value) string {
 	return s
 }
 
+var reached map[string]int // buckets lane share has reached (for its non-vacuity check)
+
 // c19ShareCases relates copy to orig field by field and records one judged case per field.
 func c19ShareCases(s *verifh.Session, rows map[string]c19Row, scenario, pair string, orig, copy_ *Client) {
 	on, cn := c19Nodes(orig), c19Nodes(copy_)
@@ -282,8 +284,10 @@ func c19ShareCases(s *verifh.Session, rows map[string]c19Row, scenario, pair str
 			s.Case(line, "ok", true, "", rel != "bothzero",
 				fmt.Sprintf("scenario %q, %s: field %s.%s (%s) of the copy is %q relative to the original's", scenario, pair, o.owner, sf.Name, sf.Type, rel))
 			s.Count("rel:" + rel)
+			reached["rel:"+rel]++
 			if rk != "-" {
 				s.Count("how:" + how)
+				reached["how:"+how]++
 			}
 		}
 	}
@@ -296,6 +300,7 @@ func TestVerif_C19_share(t *testing.T) {
 	if err != nil {
 		t.Fatalf("clone table: %v", err)
 	}
+	reached = map[string]int{}
 	w := c19NewWorld()
 	defer w.close()
 	p := c19NewPeers()
@@ -310,6 +315,7 @@ func TestVerif_C19_share(t *testing.T) {
 			name = nameOf()
 			if err != nil {
 				s.Count("life-step-failed")
+				reached["life-step-failed"]++
 				t.Logf("scenario %s: %v", name, err)
 			}
 			cc = c.Clone()
@@ -358,6 +364,16 @@ func TestVerif_C19_share(t *testing.T) {
 			return lf.do(w, p, c)
 		})
 		s.Count("random-program")
+	}
+	// the lane must have seen every relation and every kind of row, and every life with a request must have worked
+	for _, need := range []string{"rel:same", "rel:fresh+eq", "rel:fresh+ne", "rel:eq", "rel:zero", "rel:bothzero",
+		"how:assigned", "how:cloned", "how:rebuilt", "how:absent"} {
+		if reached[need] == 0 {
+			t.Errorf("lane share never reached bucket %q", need)
+		}
+	}
+	if reached["life-step-failed"] > 3+n/10 {
+		t.Errorf("%d life steps failed: the scenarios no longer reach the point of the original's life they are about", reached["life-step-failed"])
 	}
 	s.Finish()
 }
